@@ -17,7 +17,15 @@ Decided (flow.py::Flow, coretypes/serializable.py::Serializable):
         compares.  (Defect F-C40 on the pinned tree: the entry is None in B but a copy of B in run 2, so a flow was
         "modified" as soon as it was backed up; repaired in /repo by ec24fccfb, which resets the entry in ``modified()``.
         A repair inside ``get_state`` cannot work because the partial state there lacks the subclass keys.)
-NOT decided: that set_state(get_state()) restores every attribute (R36.1 key agreement), edit-history equivalence.
+  R40.4 (added; "reverting restores exactly the backed-up state") ``set_state`` is a TOTAL overwrite for every flow class
+        (Flow, HTTPFlow, TCPFlow, UDPFlow, DNSFlow): every attribute ``self.A`` that the class's ``get_state`` reads into the
+        state is definitely written on EVERY path of the class's ``set_state`` (must-definition analysis over if / conditional
+        expression / walrus / match, ``super().set_state`` and ``self.<helper>()`` followed along the MRO) - by an assignment
+        whose value does not read ``self.A`` back, or by ``self.A.set_state(...)`` - or is compared with the state by an
+        ``assert`` (class constants such as ``type``).  An attribute written only when the state carries a value (``if r :=
+        state.pop("response"): self.response = ...``) keeps what was attached after the backup: revert() then returns a
+        flow that differs from the backed-up state while the backup is already gone.
+NOT decided: that set_state assigns each attribute from ITS OWN key (R36.1 key agreement), edit-history equivalence.
 Dropped from DESIGN R40.2: "HTTPFlow.copy copies request and response" - from_state already builds fresh message objects
 from the copied state, so the explicit copies are not a necessary condition of independence.
 """
@@ -26,6 +34,8 @@ from __future__ import annotations
 
 import ast
 
+from ..core import AnalysisError
+from ..core import norm
 from ..model import attr_chain
 from ..model import last_attr
 from ..model import stmts_of
@@ -39,10 +49,12 @@ from ._helpers_E import show
 PROP = "C40"
 REG = {
     "strength": "narrow",
-    "technique": "path rules on Flow.backup/revert/modified/copy and Serializable.copy + abstract two-run evaluation of Flow.get_state's self-referential 'backup' entry",
+    "technique": "path rules on Flow.backup/revert/modified/copy and Serializable.copy + abstract two-run evaluation of Flow.get_state's self-referential 'backup' entry "
+    "+ must-definition analysis of every flow class's set_state against the attributes its get_state reads",
     "claim": "backup stores a state only when none exists, revert restores it through set_state and leaves no backup, modified is the "
     "inequality of backup and current state and is False for an unedited flow (R40.3); copies get a fresh id before from_state, are not "
-    "live, and neither copies nor backups alias the flow's mutable members.",
+    "live, and neither copies nor backups alias the flow's mutable members; set_state overwrites every attribute get_state reads on every path (R40.4), "
+    "so revert cannot keep anything attached after the backup.",
     "note": "Assumes set_state(get_state()) is the identity on flow attributes (key agreement is R36.1's subject).",
 }
 
@@ -143,11 +155,214 @@ def _eval_get_state(fn, bk):
         raise _Unmodelled("no 'return state' at the end")
     return frozenset(st["keys"]), st["b"]
 
+# ---------------------------------------------------------------------------------------------------
+# R40.4: set_state definitely writes every attribute get_state reads
+
+FLOW_CLASSES = (("mitmproxy/flow.py", "Flow"), ("mitmproxy/http.py", "HTTPFlow"), ("mitmproxy/tcp.py", "TCPFlow"),
+                ("mitmproxy/udp.py", "UDPFlow"), ("mitmproxy/dns.py", "DNSFlow"))
+
+
+def _self_attr(e):
+    """'A' for the expression ``self.A`` (first level only), else None."""
+    if isinstance(e, ast.Attribute) and isinstance(e.value, ast.Name) and e.value.id == "self":
+        return e.attr
+    return None
+
+
+def _state_attrs(fn):
+    """First-level attributes of self that get_state reads as data (not the methods it calls)."""
+    out = {}
+    for n in ast.walk(fn):
+        a = _self_attr(n)
+        if a is None or not isinstance(n.ctx, ast.Load):
+            continue
+        par = n._parent
+        if isinstance(par, ast.Call) and par.func is n:
+            continue  # self.method(...)
+        out.setdefault(a, n)
+    return out
+
+
+class _MustDef:
+    """Attributes of self definitely written on every normally-ending path of a method (raising paths restore nothing
+    and are not revert results).  Unmodelled writers are recorded in ``self.opaque`` (the rule then refuses instead of alarming)."""
+
+    def __init__(self, model, rel, cls):
+        self.model = model
+        self.mro = model.mro(rel, cls)
+        self.opaque = []
+        self.asserted = set()
+        self.stack = []
+
+    def _find(self, classes, name):
+        for m, c in classes:
+            for st in c.body:
+                if isinstance(st, (ast.FunctionDef, ast.AsyncFunctionDef)) and st.name == name:
+                    return c, st
+        return None
+
+    def method(self, fn, owner):
+        """must-def set of ``fn`` (defined in class ``owner``)."""
+        if fn in self.stack or len(self.stack) > 4:
+            self.opaque.append(f"recursive/deep helper {fn.name}")
+            return set()
+        self.stack.append(fn)
+        self.owner_stack = getattr(self, "owner_stack", []) + [owner]
+        fall, exits = self.block(stmts_of(fn), set())
+        self.stack.pop()
+        self.owner_stack.pop()
+        ends = exits + ([fall] if fall is not None else [])
+        return set.intersection(*ends) if ends else set()
+
+    # expressions: walrus / calls evaluated inside an expression may write too (self.x.set_state(..), helpers)
+    def expr(self, e, d):
+        d = set(d)
+        if e is None:
+            return d
+        for n in ast.walk(e):
+            if isinstance(n, ast.Call):
+                d |= self.call(n)
+            elif isinstance(n, (ast.Lambda, ast.ListComp, ast.SetComp, ast.DictComp, ast.GeneratorExp)):
+                pass
+        return d
+
+    def call(self, c):
+        f = c.func
+        if isinstance(f, ast.Attribute):
+            a = _self_attr(f.value)
+            if a is not None and f.attr == "set_state":
+                return {a}  # in-place restore of a sub-object
+            if isinstance(f.value, ast.Name) and f.value.id == "self":
+                hit = self._find(self.mro, f.attr)
+                if hit is not None:
+                    return self.method(hit[1], hit[0])
+                return set()
+            v = f.value
+            if isinstance(v, ast.Call) and isinstance(v.func, ast.Name) and v.func.id == "super" and not v.args:
+                owner = self.owner_stack[-1]
+                idx = [i for i, (m, k) in enumerate(self.mro) if k is owner]
+                if not idx:
+                    self.opaque.append(f"super() outside the MRO in {norm(c)[:60]}")
+                    return set()
+                hit = self._find(self.mro[idx[0] + 1:], f.attr)
+                if hit is not None:
+                    return self.method(hit[1], hit[0])
+                return set()
+        if isinstance(f, ast.Name) and f.id in ("setattr", "vars") or (isinstance(f, ast.Attribute) and f.attr in ("update", "__setattr__") and "__dict__" in norm(f)):
+            self.opaque.append(f"dynamic attribute write {norm(c)[:60]}")
+        return set()
+
+    def store(self, target, value, d):
+        d = set(d)
+        for t in target.elts if isinstance(target, (ast.Tuple, ast.List)) else [target]:
+            a = _self_attr(t)
+            if a is None:
+                continue
+            reads_back = value is not None and any(_self_attr(n) == a and isinstance(n.ctx, ast.Load) and not (isinstance(n._parent, ast.Call) and n._parent.func is n)
+                                                   and not self._only_tested(n) for n in ast.walk(value))
+            if not reads_back:
+                d.add(a)
+        return d
+
+    @staticmethod
+    def _only_tested(n):
+        """Is the read of self.A only a condition (``X if self.A else Y`` test), not a stored value?"""
+        par = n._parent
+        return isinstance(par, ast.IfExp) and par.test is n
+
+    def block(self, stmts, d):
+        """-> (set at fall-through | None, [sets at return])"""
+        exits = []
+        cur = set(d)
+        for s in stmts:
+            if cur is None:
+                break
+            if isinstance(s, ast.Assign):
+                cur = self.expr(s.value, cur)
+                for t in s.targets:
+                    cur = self.store(t, s.value, cur)
+            elif isinstance(s, ast.AnnAssign):
+                if s.value is not None:
+                    cur = self.store(s.target, s.value, self.expr(s.value, cur))
+            elif isinstance(s, ast.AugAssign):
+                cur = self.expr(s.value, cur)
+            elif isinstance(s, ast.Expr):
+                cur = self.expr(s.value, cur)
+            elif isinstance(s, ast.Assert):
+                # assert <state value> == self.A : nothing to restore for A when it holds
+                t = s.test
+                if isinstance(t, ast.Compare) and len(t.ops) == 1 and isinstance(t.ops[0], (ast.Eq, ast.Is)):
+                    for side in (t.left, t.comparators[0]):
+                        a = _self_attr(side)
+                        if a is not None:
+                            self.asserted.add(a)
+                cur = self.expr(t, cur)
+            elif isinstance(s, ast.If):
+                c0 = self.expr(s.test, cur)
+                f1, e1 = self.block(s.body, c0)
+                f2, e2 = self.block(s.orelse, c0)
+                exits += e1 + e2
+                falls = [x for x in (f1, f2) if x is not None]
+                cur = set.intersection(*falls) if falls else None
+            elif isinstance(s, ast.Match):
+                c0 = self.expr(s.subject, cur)
+                falls = []
+                total = False
+                for case in s.cases:
+                    f1, e1 = self.block(case.body, c0)
+                    exits += e1
+                    if f1 is not None:
+                        falls.append(f1)
+                    if case.guard is None and isinstance(case.pattern, ast.MatchAs) and case.pattern.pattern is None:
+                        total = True
+                if not total:
+                    falls.append(c0)
+                cur = set.intersection(*falls) if falls else None
+            elif isinstance(s, ast.Return):
+                exits.append(self.expr(s.value, cur))
+                cur = None
+            elif isinstance(s, ast.Raise):
+                cur = None
+            elif isinstance(s, (ast.Pass, ast.Import, ast.ImportFrom, ast.Global, ast.Nonlocal, ast.FunctionDef, ast.AsyncFunctionDef, ast.ClassDef, ast.Delete)):
+                pass
+            else:
+                # loops / try / with: zero iterations or an exception may skip the body - count nothing, but remember
+                # that writes in there are not modelled so that a missing attribute is refused, not alarmed
+                if any(_self_attr(n) is not None and isinstance(n.ctx, ast.Store) for n in ast.walk(s)) or any(isinstance(n, ast.Call) for n in ast.walk(s)):
+                    self.opaque.append(f"{type(s).__name__} statement `{norm(s)[:50]}`")
+        return cur, exits
+
+
+def _set_state_total(ctx):
+    m = ctx.model
+    for rel, cl in FLOW_CLASSES:
+        gs = m.module(rel).get(f"{cl}.get_state")
+        ss = m.module(rel).get(f"{cl}.set_state")
+        ctx.require(gs is not None and ss is not None, f"{cl} no longer defines both get_state and set_state: R40.4 must be re-anchored")
+        ctx.functions.add(f"{rel}::{cl}.set_state")
+        attrs = _state_attrs(gs)
+        ctx.require(attrs, f"{cl}.get_state reads no attribute of self (shape not modelled)")
+        md = _MustDef(m, rel, cl)
+        owner = m.cls(rel, cl)
+        written = md.method(ss, owner)
+        missing = sorted(a for a in attrs if a not in written and a not in md.asserted)
+        if missing and md.opaque:
+            raise AnalysisError(f"{cl}.set_state: {missing} not seen written, but the method contains writers R40.4 does not model: {md.opaque[:3]}")
+        ctx.cells += len(attrs)
+        for a in missing:
+            ctx.fail("R40.4", (rel, f"{cl}.set_state", ss), f"{cl}.set_state: self.{a} is not written on every path",
+                     f"{cl}.get_state puts self.{a} into the state, but set_state leaves it untouched on some path (e.g. when the state carries no value for it): "
+                     "revert() keeps what was attached after the backup, so the flow differs from the backed-up state while the backup is already cleared")
+        if not missing:
+            ctx.ok("R40.4", f"{cl}.set_state definitely writes {sorted(a for a in attrs if a in written)}" + (f"; asserted equal: {sorted(md.asserted & set(attrs))}" if md.asserted & set(attrs) else ""))
+
+
 
 def check(ctx):
     ctx.rule("R40.1", "backup stores get_state() iff no backup exists; revert = set_state(backup) iff a backup exists, leaving no backup; modified = (backup != get_state()) or False without backup")
     ctx.rule("R40.2", "Serializable.copy assigns a fresh uuid4 id before from_state; Flow.copy is not live; get_state deep-copies metadata and the backup")
     ctx.rule("R40.3", "modified() is False for an unedited flow: the 'backup' entry of get_state() is the same in the stored snapshot and in the state compared with it")
+    ctx.rule("R40.4", "set_state is a total overwrite: every attribute a flow class's get_state reads is written (or asserted equal) on every path of its set_state, so revert restores exactly the backup")
     m = ctx.model
 
     # ---- R40.1 backup
@@ -351,13 +566,26 @@ def check(ctx):
     else:
         ctx.require(any(f.rule == "R40.1" for f in ctx.findings), "Flow.modified does not compare _backup with a get_state() result: R40.3 does not model this shape")
 
+    # ---- R40.4 set_state overwrites everything get_state reads
+    ctx.guard(_set_state_total, ctx)
+
     expect(ctx, "R40.1", 3)
     expect(ctx, "R40.2", 3)
+    expect(ctx, "R40.4", 5)
     if plain_compare:
         expect(ctx, "R40.3", 4)
 
 
 MUTANTS = [
+    # seed C40b: response / websocket only assigned when the state has one
+    Mutant("set-state-keeps-later-response", "mitmproxy/http.py", "        self.response = Response.from_state(r) if (r := state.pop(\"response\")) else None\n",
+           "        if r := state.pop(\"response\"):\n            self.response = Response.from_state(r)\n", "R40.4"),
+    Mutant("set-state-websocket-falls-back-to-current", "mitmproxy/http.py", "WebSocketData.from_state(w) if (w := state.pop(\"websocket\")) else None",
+           "WebSocketData.from_state(w) if (w := state.pop(\"websocket\")) else self.websocket", "R40.4"),
+    Mutant("dns-set-state-keeps-later-response", "mitmproxy/dns.py", "        self.response = (\n            DNSMessage.from_state(r) if (r := state.pop(\"response\")) else None\n        )\n",
+           "        if r := state.pop(\"response\"):\n            self.response = DNSMessage.from_state(r)\n", "R40.4"),
+    Mutant("set-state-keeps-later-error", FLOW, "        else:\n            self.error = state.pop(\"error\")\n", "        else:\n            state.pop(\"error\")\n", "R40.4"),
+    Mutant("set-state-drops-comment", FLOW, "        self.comment = state.pop(\"comment\")\n", "        state.pop(\"comment\")\n", "R40.4"),
     Mutant("backup-overwrites", FLOW, "        if not self._backup:\n            self._backup = self.get_state()\n", "        self._backup = self.get_state()\n", "R40.1"),
     Mutant("backup-guard-inverted", FLOW, "        if not self._backup:\n            self._backup = self.get_state()\n", "        if self._backup:\n            self._backup = self.get_state()\n", "R40.1"),
     Mutant("revert-clears-first", FLOW, "            self.set_state(self._backup)\n            self._backup = None\n", "            self._backup = None\n            self.set_state(self._backup)\n", "R40.1"),
